@@ -8,12 +8,26 @@ Regimes of the CALLING PROGRAM (red-team round 2): every relation is also evalua
 torch.no_grad(), torch.inference_mode(), torch.enable_grad() and torch.set_default_dtype(float32 / float64); the 1-D call
 forms must return ONE entry of the batched result (same shape as indexing it); the normalisation constant is handed
 to probability(v, Z) as Python float / numpy float / int / tensor; batches are also strided views; every returned
-tensor is overwritten in place by the caller (it is his) and the same calls are repeated."""
+tensor is overwritten in place by the caller (it is his) and the same calls are repeated.
+Construction paths (black-box seed round 5): the state object is also obtained through EVERY documented construction path -- sizes,
+default num_hidden, module= (a fresh BinaryRBM / one the user parameterised beforehand), autoload, load, networks replaced through the
+setters, reinitialize_parameters -- and its two networks are then given DIFFERENT values through every write mechanism (`.data =`,
+`.data.copy_`, `copy_` under no_grad, rebinding, load_state_dict, index assignment, in-place arithmetic, an optimiser step, load(file),
+gen.set_brbm), in both orders, and then ONE network alone is rewritten in place; the oracle is always evaluated on the values the
+user SET, and "modulus depends only on the amplitude network" is additionally checked as: amplitude / probability / normalization do
+not move when only the phase network is rewritten.  The fixed first block visits all 30 architectures."""
 import contextlib, itertools, math
 import numpy as np
 import gen
 
-RULE = ("architectures nv 1..5 x nh 1..6 (quick: covering subset incl. nh != nv, size-1 dims; thorough: all 30), "
+RULE = ("fixed first block: (A) ALL 30 architectures nv 1..5 x nh 1..6 x both state types, one state each, built through a rotating construction path "
+        "{Cls(nv, nh), Cls(nv), module=fresh BinaryRBM, module=RBM parameterised by the user, autoload, load, networks replaced through the setters, "
+        "reinitialize_parameters} and written through rotating mechanisms {.data=, .data.copy_, copy_ under no_grad, rebinding, load_state_dict, index assignment, "
+        "in-place arithmetic, optimiser step, load(file), gen.set_brbm} in rotating order am->ph / ph->am, the two networks always with different non-zero values; "
+        "(B) every construction path x every write mechanism on small architectures, complex cases continuing with the phase network alone and then the amplitude "
+        "network alone rewritten in place (modulus / phase of the untouched network must not move); the stream repeats this with random path / mechanisms / order per "
+        "architecture; the oracle is evaluated on the values the user set; then: "
+        "architectures nv 1..5 x nh 1..6 (stream, quick: covering subset incl. nh != nv, size-1 dims; thorough: all 30), "
         "parameter draws from the mixture in harness/gen.py, all 2^n basis states, batched and 1-D call forms (values AND shapes; "
         "contiguous, strided and column-major batches; double / float32 / int64 0-1 data); fixed cases first: both state types x "
         "calling modes {no_grad, inference_mode, enable_grad, default dtype float32 / float64 (state built and used under it)}, then the stream "
@@ -22,7 +36,11 @@ RULE = ("architectures nv 1..5 x nh 1..6 (quick: covering subset incl. nh != nv,
         "a case is (state type, nv, nh, parameter draw, calling mode); non-trivial := all biases non-zero and (nh != nv or complex)")
 ASSUMPTIONS = ["torch softplus/logsumexp/matmul implement the real functions up to rounding",
                "Z of probability(v, Z) is a Python / numpy real number, an int or a 0-dim double tensor (the documented type is float); "
-               "single-precision tensors as Z are not generated"]
+               "single-precision tensors as Z are not generated",
+               "module=: the amplitude network must hold the VALUES of the RBM handed over (that is the state the user built), but that it is the same OBJECT is a "
+               "docstring rule, not part of the property, and is not demanded: the state is written through state.rbm_am / state.rbm_ph only; what the phase network "
+               "holds right after Cls(module=rbm) is not demanded either (it is written before the first evaluation)",
+               "autoload / load: the parameter setting of the loaded state is the one in the file (written by save() of another state of the same type)"]
 
 # the regimes of the calling program under which the library is called ("ambient" = whatever the driver set: grad enabled,
 # or -- every third quick seed / second thorough pass -- the whole run under no_grad)
@@ -337,6 +355,270 @@ def _one_case(ctx, kind, nv, nh, zero_bias, large, replay_params, mode):
     evaluate(ctx, s, kind, am2, ph2, space, case2, nontriv, tag=" (after rewriting the parameters of the same object)", mode=mode)
 
 
+# ---------------------------------------------------------------------------------------------------------------------------
+# CONSTRUCTION PATHS x WRITE MECHANISMS (black-box seed round 5).  The property speaks of "every parameter setting of a positive or
+# complex wavefunction state" and says that the complex modulus depends ONLY on the amplitude network: a state is an object the user
+# obtained through any documented construction path and whose networks he then set, each to its own values, through any of the ways
+# torch / the library offer.  So: every path below, then the two networks written with DIFFERENT values through every mechanism
+# (in place as well as rebinding), in both orders, then ONE network rewritten alone -- and after every step the same independent
+# oracle on the values the user set.  (Two networks that share storage, a network that is the user's module twice, a shallow copy,
+# a cached zero-bias buffer: all invisible to a harness that only ever builds Cls(nv, nh) and rebinds `.data`.)
+PATHS = ("sizes", "default_nh", "module_fresh", "module_preset", "autoload", "load", "setter", "reinit")
+PATH_DOC = {"sizes": "Cls(nv, nh)", "default_nh": "Cls(nv) (num_hidden defaults to num_visible)", "module_fresh": "Cls(nv, module=BinaryRBM(nv, nh))",
+            "module_preset": "Cls(nv, module=rbm) with rbm's parameters set by the user beforehand", "autoload": "Cls.autoload(file saved by another state)",
+            "load": "Cls(nv, nh).load(file saved by another state)", "setter": "Cls(nv, nh), then both networks replaced by fresh BinaryRBMs through the rbm_am / rbm_ph setters",
+            "reinit": "Cls(nv, nh), parameters written, then reinitialize_parameters()"}
+# ways of giving ONE network new values; all but data_assign / rebind write into the existing parameter tensors
+WRITES = ("data_assign", "data_copy_", "copy_no_grad", "rebind", "load_state_dict", "index_assign", "inplace_arith", "sgd_step", "load_file", "gen_set_brbm")
+INPLACE = ("data_copy_", "copy_no_grad", "load_state_dict", "index_assign", "inplace_arith", "sgd_step", "load_file")
+NAMES = ("weights", "visible_bias", "hidden_bias")
+_FILES = itertools.count()
+
+
+def state_class(kind):
+    from qucumber.nn_states import PositiveWaveFunction, ComplexWaveFunction
+    return PositiveWaveFunction if kind == "positive" else ComplexWaveFunction
+
+
+def write_net(rbm, params, how):
+    """gives the BinaryRBM `rbm` the values params = (W, b, c) the way `how` says; returns the values the network holds right
+    after THIS write (read back only for the optimiser step, which reaches its target up to rounding)"""
+    import torch
+    ts = [torch.tensor(np.asarray(x, dtype=float), dtype=torch.double) for x in params]
+    if how == "gen_set_brbm":                       # the shared writer: uses the network first, then rotates over four mechanisms
+        gen.set_brbm(rbm, *[np.asarray(x, dtype=float) for x in params])
+    elif how == "load_state_dict":
+        rbm.load_state_dict(dict(zip(NAMES, ts)))
+    else:
+        for name, t in zip(NAMES, ts):
+            p = getattr(rbm, name)
+            if how == "data_assign":
+                p.data = t
+            elif how == "data_copy_":
+                p.data.copy_(t)
+            elif how == "copy_no_grad":
+                with torch.no_grad():
+                    p.copy_(t)
+            elif how == "rebind":
+                setattr(rbm, name, torch.nn.Parameter(t, requires_grad=p.requires_grad))
+            elif how == "index_assign":
+                p.data[...] = t
+            elif how == "inplace_arith":
+                p.data.mul_(0).add_(t)
+            elif how == "sgd_step":                 # what fit does: the library's gradient into .grad, then optimizer.step()
+                p.grad = p.data - t
+                torch.optim.SGD([p], lr=1.0).step()
+                p.grad = None
+            else:
+                raise ValueError(how)
+    if how == "sgd_step":
+        return tuple(getattr(rbm, n).detach().numpy().astype(float).copy() for n in NAMES)
+    return tuple(np.asarray(x, dtype=float) for x in params)
+
+
+def saved_file(ctx, kind, nv, nh, am, ph):
+    """a parameter file written by ANOTHER state of the same type (built through sizes) that holds (am, ph)"""
+    import os
+    donor = state_class(kind)(nv, nh, gpu=False)
+    write_net(donor.rbm_am, am, "data_assign")
+    if kind == "complex":
+        write_net(donor.rbm_ph, ph, "data_assign")
+    path = os.path.join(ctx.scratch, "c01_state_%d.pt" % next(_FILES))
+    donor.save(path)
+    return path
+
+
+def build(ctx, kind, nv, nh, path, pre_am, pre_ph, how_pre):
+    from qucumber.rbm import BinaryRBM
+    Cls = state_class(kind)
+    if path == "sizes":
+        return Cls(nv, nh, gpu=False)
+    if path == "default_nh":
+        return Cls(nv, gpu=False)
+    if path == "module_fresh":
+        return Cls(nv, gpu=False, module=BinaryRBM(nv, nh, gpu=False))
+    if path == "module_preset":
+        rbm = BinaryRBM(nv, nh, gpu=False)
+        write_net(rbm, pre_am, how_pre if how_pre != "load_file" else "load_state_dict")
+        return Cls(nv, gpu=False, module=rbm)
+    if path == "autoload":
+        return Cls.autoload(saved_file(ctx, kind, nv, nh, pre_am, pre_ph), gpu=False)
+    if path == "load":
+        s = Cls(nv, nh, gpu=False)
+        s.load(saved_file(ctx, kind, nv, nh, pre_am, pre_ph))
+        return s
+    if path == "setter":
+        s = Cls(nv, nh, gpu=False)
+        s.rbm_am = BinaryRBM(nv, nh, gpu=False)
+        if kind == "complex":
+            s.rbm_ph = BinaryRBM(nv, nh, gpu=False)
+        return s
+    if path == "reinit":
+        s = Cls(nv, nh, gpu=False)
+        write_net(s.rbm_am, pre_am, "data_copy_")
+        if kind == "complex":
+            write_net(s.rbm_ph, pre_ph, "data_copy_")
+        s.reinitialize_parameters()
+        return s
+    raise ValueError(path)
+
+
+def make_recipe(ctx, kind, nv, nh, path, how_am, how_ph, order, steps, how_am2=None, how_ph2=None, large=False):
+    """everything a construction case needs, drawn up front (the recipe is the replayable identity of the case)"""
+    def draw():
+        W, b, c = gen.brbm_params(ctx, nv, nh)
+        if large:
+            b, c = big_bias(ctx, nv), big_bias(ctx, nh)
+        return gen.plist(W, b, c)
+    inpl = [h for h in INPLACE]
+    return {"construction": path, "state": kind, "nv": nv, "nh": nh, "how_am": how_am, "how_ph": how_ph, "order": order, "steps": steps,
+            "how_preset": how_am, "how_am2": how_am2 or inpl[int(ctx.rng.integers(len(inpl)))], "how_ph2": how_ph2 or inpl[int(ctx.rng.integers(len(inpl)))],
+            "preset_am": draw(), "preset_ph": draw(), "set_am": draw(), "set_ph": draw(), "set_am2": draw(), "set_ph2": draw()}
+
+
+def run_recipe(ctx, r):
+    """build the state through r['construction'], set the networks as the recipe says, evaluate against the values SET"""
+    import torch
+    kind, nv, nh, path = r["state"], int(r["nv"]), int(r["nh"]), r["construction"]
+    cplx = kind == "complex"
+    arr = lambda k: tuple(np.array(x, dtype=float) for x in r[k])
+    space = torch.tensor(np.array(list(itertools.product([0.0, 1.0], repeat=nv))), dtype=torch.double)
+    nontriv = nh != nv or cplx
+    ctx.count("construction:" + path); ctx.count("construction_state:" + kind); ctx.count("construction_shape:%dx%d" % (nv, nh))
+    ok, s = ctx.call("building the state: " + PATH_DOC[path], r, lambda: build(ctx, kind, nv, nh, path, arr("preset_am"), arr("preset_ph"), r["how_preset"]))
+    if not ok:
+        return
+    cur = {"am": None, "ph": None}                  # the values the USER set (None: whatever the library initialised)
+
+    def ev(step):
+        case = dict(r, am=gen.plist(*cur["am"]), ph=gen.plist(*cur["ph"]) if cplx else None, step=step, mode="ambient")
+        tag = " [state built as %s; %s]" % (PATH_DOC[path], step)
+        return evaluate(ctx, s, kind, cur["am"], cur["ph"] if cplx else None, space, case, nontriv, tag=tag)
+
+    def put(net, params, how):
+        """one network of s gets new values"""
+        ctx.count("write:" + how)
+        if how == "load_file":                      # a checkpoint that differs from the state in this network only / in both
+            want = dict(cur); want[net] = params
+            if want["am"] is None or (cplx and want["ph"] is None):
+                how = "load_state_dict"
+            else:
+                s.load(saved_file(ctx, kind, nv, nh, want["am"], want["ph"]))
+                cur[net] = params
+                return
+        cur[net] = write_net(s.rbm_am if net == "am" else s.rbm_ph, params, how)
+
+    def guarded(what, fn):
+        ok, _ = ctx.call(what, dict(r, step=what), fn)
+        return ok
+
+    if path in ("autoload", "load"):
+        cur["am"], cur["ph"] = arr("preset_am"), arr("preset_ph")
+        if not ev("as loaded from the file") or r["steps"] == "one":
+            return
+    if path == "module_preset":
+        cur["am"] = arr("preset_am")                # the amplitude network IS the user's module: it has the values he gave it
+        if cplx:
+            if not guarded("writing the phase network (%s)" % r["how_ph"], lambda: put("ph", arr("set_ph"), r["how_ph"])):
+                return
+            step = "amplitude network as handed over in module=, phase network written (%s)" % r["how_ph"]
+        else:
+            step = "amplitude network as handed over in module="
+    else:
+        seq = [("am", "set_am", r["how_am"])] + ([("ph", "set_ph", r["how_ph"])] if cplx else [])
+        if r["order"] == "ph->am":
+            seq.reverse()
+        if r["how_am"] == "load_file" and r["how_ph"] == "load_file" and cplx:      # one checkpoint holding both
+            cur["am"], cur["ph"] = arr("set_am"), arr("set_ph")
+            if not guarded("load(file)", lambda: s.load(saved_file(ctx, kind, nv, nh, cur["am"], cur["ph"]))):
+                return
+            ctx.count("write:load_file(both)")
+        else:
+            for net, key, how in seq:
+                if not guarded("writing the %s network (%s)" % (net, how), lambda: put(net, arr(key), how)):
+                    return
+        step = "networks written %s (%s)" % (r["order"] if cplx else "", ", ".join("%s: %s" % (n, h) for n, _, h in seq))
+    if not ev(step) or r["steps"] == "one":
+        return
+    # ---- ONE network rewritten alone, in place: the other network's observables do not move
+    finite = lambda xs: all(bool(np.all(np.isfinite(x))) for x in xs)
+
+    def observe():
+        ok, o = ctx.call("amplitude / probability / normalization / phase", r, lambda: (
+            s.amplitude(space), s.probability(space), s.normalization(space), s.phase(space)))
+        return [np.asarray(t.detach().numpy(), dtype=float).copy() for t in o] if ok else None
+    if cplx:
+        before = observe()
+        if before is None or not guarded("rewriting the phase network alone (%s)" % r["how_ph2"], lambda: put("ph", arr("set_ph2"), r["how_ph2"])):
+            return
+        after = observe()
+        if after is None:
+            return
+        hcase = dict(r, am=gen.plist(*cur["am"]), ph=gen.plist(*cur["ph"]), step="only the phase network rewritten (%s)" % r["how_ph2"])
+        if finite(before[:3] + after[:3]):
+            ctx.require("the modulus depends only on the amplitude network: amplitude / probability / normalization unchanged when only the phase network is rewritten",
+                        all(same(a, b) for a, b in zip(after[:3], before[:3])), hcase,
+                        {"amplitude before": before[0].tolist(), "after": after[0].tolist()})
+        else:
+            ctx.count("skipped_overflow")
+        if not ev("then only the phase network rewritten (%s)" % r["how_ph2"]):
+            return
+    before = observe()
+    if before is None or not guarded("rewriting the amplitude network alone (%s)" % r["how_am2"], lambda: put("am", arr("set_am2"), r["how_am2"])):
+        return
+    after = observe()
+    if after is None:
+        return
+    if cplx:
+        hcase = dict(r, am=gen.plist(*cur["am"]), ph=gen.plist(*cur["ph"]), step="only the amplitude network rewritten (%s)" % r["how_am2"])
+        if finite([before[3], after[3]]):
+            ctx.require("the phase depends only on the phase network: phase unchanged when only the amplitude network is rewritten",
+                        same(after[3], before[3]), hcase, {"phase before": before[3].tolist(), "after": after[3].tolist()})
+        else:
+            ctx.count("skipped_overflow")
+    ev("then only the amplitude network rewritten (%s)" % r["how_am2"])
+
+
+def applicable_paths(nv, nh):
+    return [p for p in PATHS if p != "default_nh" or nh == nv]
+
+
+def fixed_constructions(ctx):
+    """always first.  (A) EVERY architecture nv 1..5 x nh 1..6, both state types: one state each, construction path / write mechanisms /
+    order rotating (offsets from the seed), one evaluation.  (B) every construction path x every write mechanism (the same mechanism for
+    both networks, so that nothing un-shares them before the second write lands), complex and positive, small architectures rotating,
+    orders alternating; complex cases go on to rewrite each network alone."""
+    off = [int(x) for x in ctx.rng.integers(0, 1000, size=4)]
+    i = 0
+    for nv in range(1, 6):
+        for nh in range(1, 7):
+            for kind in ("complex", "positive"):
+                ctx.torch_seed()
+                paths = applicable_paths(nv, nh)
+                path = paths[(i + off[0]) % len(paths)]
+                if nh == nv and (kind == "complex") == (nv % 2 == 1):
+                    path = "default_nh"
+                r = make_recipe(ctx, kind, nv, nh, path, WRITES[(i + off[1]) % len(WRITES)], WRITES[(i // 2 + off[2]) % len(WRITES)],
+                                "am->ph" if (i + off[3]) % 2 == 0 else "ph->am", "one", large=(i % 5 == 4))
+                run_recipe(ctx, r)
+                i += 1
+    small = [(2, 3), (3, 2), (1, 1), (2, 1), (1, 3), (3, 1), (2, 2)]
+    j = 0
+    for path in PATHS:
+        for how in WRITES:
+            for kind in ("complex", "positive"):
+                if kind == "positive" and j % 3 != 0 and path not in ("module_fresh", "module_preset"):
+                    j += 1
+                    continue                        # one network only: every path x a third of the mechanisms (module=: all)
+                nv, nh = small[j % len(small)] if path != "default_nh" else ((2, 2), (1, 1), (3, 3))[j % 3]
+                ctx.torch_seed()
+                inpl = INPLACE[j % len(INPLACE)], INPLACE[(j // 2 + 3) % len(INPLACE)]
+                r = make_recipe(ctx, kind, nv, nh, path, how, how, "am->ph" if j % 2 == 0 else "ph->am", "all" if kind == "complex" or path.startswith("module") else "one",
+                                how_am2=inpl[0], how_ph2=inpl[1])
+                run_recipe(ctx, r)
+                j += 1
+
+
 def fixed_regimes(ctx):
     """always first: both state types under every regime of the calling program (no_grad / inference_mode / enable_grad /
     default dtype float32 / float64), incl. large biases; each case carries the shape, Z-encoding, layout and overwrite relations"""
@@ -346,12 +628,22 @@ def fixed_regimes(ctx):
             one_case(ctx, kind, 3 if kind == "complex" else 2, 2 if kind == "complex" else 3, large=(i % 2 == 1), mode=mode)
 
 
+def random_construction(ctx, kind, nv, nh, large=False):
+    paths = applicable_paths(nv, nh)
+    pick = lambda xs: xs[int(ctx.rng.integers(len(xs)))]
+    run_recipe(ctx, make_recipe(ctx, kind, nv, nh, pick(paths), pick(WRITES), pick(WRITES), pick(("am->ph", "ph->am")), "all", large=large))
+
+
 def run(ctx):
+    fixed_constructions(ctx)
     fixed_regimes(ctx)
     draws = 10 if ctx.thorough else 3
     k = 0
     for (nv, nh) in shapes(ctx):
         for kind in ("positive", "complex"):
+            for d in range(draws // 3):             # the stream of construction path x write mechanisms x order
+                ctx.torch_seed()
+                random_construction(ctx, kind, nv, nh, large=(d % 2 == 1))
             for d in range(draws):
                 ctx.torch_seed()
                 mode = "ambient"
@@ -369,6 +661,9 @@ def search(ctx, broken, budget):
     import time
     t0 = time.time()
     n0 = len(ctx.failures)
+    fixed_constructions(ctx)
+    if len(ctx.failures) > n0:
+        return ctx.failures[n0]
     fixed_regimes(ctx)
     if len(ctx.failures) > n0:
         return ctx.failures[n0]
@@ -386,7 +681,9 @@ def search(ctx, broken, budget):
 def replay(ctx, rec):
     """re-executes exactly the recorded failing case (parameters are stored in the replay file)"""
     case = rec.get("failing", {}).get("case", {})
-    if case.get("am"):
+    if case.get("construction"):
+        run_recipe(ctx, case)
+    elif case.get("am"):
         one_case(ctx, case.get("state", "positive"), int(case["nv"]), int(case["nh"]), replay_params=case, mode=case.get("mode") or "ambient")
     else:
         run(ctx)
